@@ -143,6 +143,19 @@ where
     I: Send + Sync + SystemInput + 'static, <I as SystemInput>::Inner<'static>: Send,
     O: Send + Sync + 'static,
 {
+    let result = spawned_syscall_impl::<I, O>(world, sys_id, input);
+
+    // apply commands the system queued directly on the world's command queue (e.g. through `DeferredWorld`)
+    if result.is_ok() { world.flush(); }
+
+    result
+}
+
+fn spawned_syscall_impl<I, O>(world: &mut World, sys_id: SysId, input: <I as SystemInput>::Inner<'_>) -> Result<O, ()>
+where
+    I: Send + Sync + SystemInput + 'static, <I as SystemInput>::Inner<'static>: Send,
+    O: Send + Sync + 'static,
+{
     // extract the callback
     let Ok(mut entity_mut) = world.get_entity_mut(sys_id.0) else { return Err(()); };
     let Some(mut spawned_system) = entity_mut.get_mut::<SpawnedSystem<I, O>>()
